@@ -641,6 +641,26 @@ def work_tabgreedy(item, col):
                 elif A > 1:
                     # the rows' unique maximisers cover every action, so a value-dependent choice would have shown
                     col.outcome("epsilon1_row_sets_whose_greedy_actions_differ")
+    # near-ties: the best and the second-best value are distinct float32 numbers that are relatively close (or both tiny);
+    # with epsilon = 0 the maximiser is still the only legal answer, for every key
+    if A > 1:
+        for lo, hi in ((100.0, 100.0005), (-2500.01, -2500.0), (2e-9, 3e-9), (1.0, 1.000001), (-1.000001, -1.0)):
+            for j in range(A):
+                row = np.full(A, lo, np.float32)
+                row[j] = np.float32(hi)
+                if not row[j] > row[(j + 1) % A]:
+                    continue  # not distinct in float32
+                tab = np.stack([row, other])
+                jt = jnp.asarray(tab)
+                for key in kk:
+                    d = dict(table=tab, observation=0, epsilon=0.0, near_tie=[lo, hi])
+                    ok, a = call(col, E, vp.epsilon_greedy_policy, jt, 0, 0.0, key, detail=d)
+                    col.tick(1, ("epsgreedy-near", A, lo, j))
+                    if not ok:
+                        continue
+                    col.outcome("epsilon0_cases_with_a_near_tie")
+                    if np.asarray(a).shape != () or int(a) != j:
+                        col.violation(SIG.format(E, K_EPS0), dict(d, action=repr(a), maximiser=j))
     # tables with several observation axes (Tuple-of-Discrete observation spaces, as make_q_table builds them): the
     # observation is a tuple of indices, the addressed row has A entries whatever the sizes of the other axes
     for dims in ((3, 5), (2, A + 3)):
